@@ -61,9 +61,15 @@ var Checks = map[string]func(env *Env, rep *Report){
 	"C16": RunC16,
 	"C20": RunC20,
 	"C06": RunC06,
+	"C07": RunC07,
 }
 
 func jsonUnmarshal(b []byte, v interface{}) { _ = json.Unmarshal(b, v) }
 
 func jsonMarshal(v interface{}) ([]byte, error)        { return json.Marshal(v) }
 func jsonUnmarshalErr(b []byte, v interface{}) error { return json.Unmarshal(b, v) }
+
+func writeJSON(path string, v interface{}) {
+	b, _ := json.Marshal(v)
+	os.WriteFile(path, b, 0o644)
+}
